@@ -322,11 +322,17 @@ func (m *Decisions) AfterScan(ctx *h.ScanCtx) []h.Violation {
 				if e.Op != sim.OpCreateFleet || e.Err != "" {
 					continue
 				}
-				attached := 0
+				attached, cleanedUp := 0, false
 				for _, w := range o.writes {
 					if w.Op == sim.OpAttach && w.Err == "" {
 						attached += len(w.IDs)
 					}
+					if w.Op == sim.OpTermIns {
+						cleanedUp = true
+					}
+				}
+				if cleanedUp {
+					continue // the provisioning failed (instances never became ready) and was cleaned up: C18's subject
 				}
 				ctx.H.Cov["c05.fleet-scale-ups"]++
 				if int64(attached) != e.Val {
